@@ -147,7 +147,7 @@ theorem sAlloc_inv {σ : State} {a sz clr : Nat} {ad am : Bool} (I : Inv σ) (ha
     ∃ σ', sAlloc a sz clr ad am σ = .ok () σ' ∧ Inv σ' ∧ Same σ σ' ∧
       (∀ x, x ≠ a → σ'.obj x = σ.obj x) ∧
       ((σ'.obj a = { σ.obj a with ptr := 0 } ∧ (sz = 0 ∨ ad = false ∨ am = false ∨ LIMIT < sz)) ∨
-       (∃ d, σ'.obj a = { σ.obj a with ptr := d } ∧ d ≠ 0 ∧ 0 < sz ∧ sz ≤ LIMIT ∧ ad = true ∧ am = true ∧
+       (∃ d, σ'.obj a = { σ.obj a with ptr := d } ∧ d ≠ 0 ∧ σ.next ≤ d ∧ 0 < sz ∧ sz ≤ LIMIT ∧ ad = true ∧ am = true ∧
           σ'.blk d = { live := true, size := DSZ, isData := true, hard := 1, soft := 1, upOk := true,
                         up := d + 1, upClr := clr } ∧
           σ'.blk (d + 1) = { live := true, size := sz, ownerD := d, clrG := clr })) := by
@@ -179,8 +179,10 @@ theorem sAlloc_inv {σ : State} {a sz clr : Nat} {ad am : Bool} (I : Inv σ) (ha
         obtain ⟨σ2, h2, I2, S2, ho2, _, _, hbd, hbm⟩ :=
           allocTail_ok (clr := clr) I1 (by rw [S1.n]; exact ha) ha1.1 (by rw [S1.kind]; exact hk) ha1.2 hsz' hlim
         refine ⟨σ2, h2, I2, ⟨S2.n.trans S1.n, S2.kind.trans S1.kind, S2.ext.trans S1.ext⟩,
-          fun x hx => by rw [ho2]; simp [hx, hox x hx], Or.inr ⟨σ1.next, ?_, ?_, hsz', hlim, rfl, rfl, hbd, hbm⟩⟩
+          fun x hx => by rw [ho2]; simp [hx, hox x hx], Or.inr ⟨σ1.next, ?_, ?_, ?_, hsz', hlim, rfl, rfl, hbd, hbm⟩⟩
         · rw [ho2, hoa]; simp
         · have := I1.next_pos; omega
+        · have E := (steps_sReset (A := fun _ => True) (D := false) a trivial (Steps.refl σ)).ext
+          rw [h1] at E; exact E.next
 
 end Cstl.Mem
